@@ -149,7 +149,7 @@ impl Default for UptimeTracker {
 
 fn get_unix_time_ms() -> Option<u64> {
     #[cfg(huginn_net_verif)]
-    let now = huginn_net_verif_rt::clock::system_now();
+    let now: SystemTime = huginn_net_verif_rt::clock::system_now();
     #[cfg(not(huginn_net_verif))]
     let now = SystemTime::now();
     now.duration_since(UNIX_EPOCH)
